@@ -70,6 +70,10 @@ func (p *testParser) classicTest(fval string, pastAndOr bool) syntax.TestExpr {
 			p.errf("%s must be followed by an expression", opStr)
 		}
 	default:
+		if _, ok := left.(*syntax.Word); !ok {
+			// e.g. [ -b 3 = b ], where "-b 3" was taken as a unary test
+			p.errf("%s must be preceded by a word", opStr)
+		}
 		b.Y = p.followWord(opStr)
 	}
 	return b
